@@ -541,7 +541,7 @@ def run_property(prop_id, tier, seed, only_shards=None, procs=None):
     tot_cases = sum(s["cases"] for s in results)
     print("%s %s seed=%d: %d cases, %d evaluations, %d distinct non-trivial, %d violation bucket(s), %d known-finding kind(s), %.0fs" % (
         prop_id, tier, seed, tot_cases, sum(s["evaluations"] for s in results),
-        len(set().union(*[set(s["name"] + k for k in s["nt_keys"]) for s in results])) if results else 0,
+        len(set().union(*[set(s["name"].split(":")[0] + "/" + k for k in s["nt_keys"]) for s in results])) if results else 0,
         violations, len(known_hits), wall))
     return 1 if violations else 0
 
